@@ -153,6 +153,17 @@ def make_case(prop, st, op, before, after, res, fault, cls, outside_changed=None
     viol = []
     if res["result"] in ("crash", "timeout"):
         viol.append("the operation crashed or hung: " + res["detail"][:300])
+    if prop == "C08" and op[0] in ("auth", "exists", "list", "listfull", "check"):
+        # a reader in another process sees each record in ONE state (old or new) only if it reads the
+        # file through one open: a second open of the same name may already be the writer's new file
+        opens = {}
+        for a in res["accesses"]:
+            if a[0] == "KOpen" and a[1][0] == "file" and a[2]:
+                opens[a[1][1]] = opens.get(a[1][1], 0) + 1
+        twice = sorted(k for k, v in opens.items() if v > 1)
+        if twice:
+            viol.append("%s opens the hash file(s) %s more than once: a concurrent update's rename between the two opens "
+                        "makes the reader combine fields of the old and of the new record" % (op[0], twice))
     if res["outside"]:
         viol.append("system calls on paths outside <base>: %s" % (res["outside"][:5],))
     if outside_changed:
